@@ -83,11 +83,12 @@ Proof.
 Qed.
 
 (* with a handler: the handler's result (or the error it raises itself) is what is delivered,
-   and the heights are restored the same way from the state the handler left *)
+   and the heights are restored the same way from the state the handler left (the handler runs
+   after ls.nccalls has been put back to its value at the PCall) *)
 Lemma PCall_handler_restores : forall nargs nret hv s e sf,
   Call ml nargs nret s = VErr e sf ->
   forall r, (vdo _ <- reg_push hv; vdo _ <- reg_push e; vdo _ <- Call ml 1 1;
-             vdo t <- reg_top; reg_get (t - 1)) sf = r ->
+             vdo t <- reg_top; reg_get (t - 1)) (set_nccalls (cur_nccalls s) sf) = r ->
   match r with
   | VRet v sh => PCall ml nargs nret (Some hv) s = VRet (Some v) (unwind (length (vstack s)) (rtop (vreg s) - nargs - 1) sh)
   | VErr e2 sh => PCall ml nargs nret (Some hv) s = VRet (Some e2) (unwind (length (vstack s)) (rtop (vreg s) - nargs - 1) sh)
